@@ -241,6 +241,8 @@ Proof.
     apply (p_fid _ P) in Hin. simpl in Hin. lia.
   - apply in_repeat_app in Hin as [[= ]|Hin]. apply (p_fid _ P) in Hin. simpl in Hin. lia.
   - apply in_repeat_app in Hin as [[= ]|Hin]. apply (p_fid _ P) in Hin. simpl in Hin. lia.
+  - destruct Hin as [Hx|Hin]; [discriminate Hx|]. apply (p_fid _ P) in Hin. simpl in Hin. lia.
+  - apply in_repeat_app in Hin as [[= ]|Hin]. apply (p_fid _ P) in Hin. simpl in Hin. lia.
 Qed.
 
 (* the counter at quiescence: the name's share is 1 exactly when a running instance is
@@ -374,5 +376,12 @@ Proof.
   - destruct (node (d_s d n)) as [q|]; [|discriminate].
     destruct (step (d_s d) (LStop n q)) eqn:E2; injection E as <-; simpl; [econstructor; eauto|assumption].
   - injection E as <-. assumption.
+  - injection E as <-. assumption.
+  - destruct (mem n (d_gated d)); [|discriminate].
+    destruct (step (d_s d) (LCancel n)) eqn:E2; [|discriminate]. injection E as <-. simpl. econstructor; eauto.
+  - destruct (mem n (d_gated d)); [|discriminate].
+    destruct (step (d_s d) (LCall n)) as [s1|] eqn:E2; [|discriminate].
+    destruct (step s1 (LAbandon n)) eqn:E3; [|discriminate]. injection E as <-. simpl.
+    econstructor; [econstructor; [exact R|exact E2]|exact E3].
   - injection E as <-. assumption.
 Qed.
